@@ -143,6 +143,12 @@ func (t *trzszTransfer) pipelineRecvHashAck(ctx context.Context, cancel context.
 				return
 			}
 
+			// every record is acknowledged in order: a step outside the next block means an acknowledgement was lost or repeated
+			if hashAck.Step <= matchStep || hashAck.Step > matchStep+kPrefixHashStep {
+				cancel(simpleTrzszError("Invalid hash ack step: %d", hashAck.Step))
+				return
+			}
+
 			if !hashAck.Match {
 				matchChan <- matchStep
 				return
